@@ -96,3 +96,30 @@ Section Counting.
   Context {V : Type} (key : V -> N).
   Definition votes (vs : list V) (k : N) : Z := Z.of_nat (length (filter (fun v => key v =? k) vs)).
 End Counting.
+
+(* ------------------------------------------------------------------------------------------- *)
+(* The timed layer in words: node [p0] gives the answer [v] (at its latency [pv_time p0]): it
+   answers with content, and either in time or without regard for its context. *)
+Definition gives (pr : params) (p0 : prov) (v : value) : Prop :=
+  pv_beh p0 = BRespond v /\ ((pv_time p0 <=? p_timeout pr) || pv_deaf p0 = true).
+
+(* ... and the strategy's validity rules accept it *)
+Definition gives_ok (st : strategy) (pr : params) (p0 : prov) (v : value) : Prop :=
+  gives pr p0 v /\ accepts st pr (v_raw v) = true.
+
+(* the harness gives equal ids exactly to equal contents *)
+Definition ids_ok (ps : list prov) : Prop :=
+  forall p1 p2 v1 v2, In p1 ps -> In p2 ps -> pv_beh p1 = BRespond v1 -> pv_beh p2 = BRespond v2 ->
+                      v_id v1 = v_id v2 -> v_raw v1 = v_raw v2.
+
+(* how many nodes give an acceptable answer with this id before / no later than an instant *)
+Definition okb (st : strategy) (pr : params) (p0 : prov) : option value :=
+  match pv_beh p0 with
+  | BRespond v => if ((pv_time p0 <=? p_timeout pr) || pv_deaf p0) && accepts st pr (v_raw v) then Some v else None
+  | _ => None
+  end.
+Definition cnt (st : strategy) (pr : params) (ps : list prov) (inb : N -> bool) (id : N) : Z :=
+  Z.of_nat (length (filter (fun p0 => match okb st pr p0 with
+                                      | Some v => (v_id v =? id) && inb (pv_time p0)
+                                      | None => false
+                                      end) ps)).
